@@ -380,8 +380,12 @@ def verify_replay_fresh(path):
     r = subprocess.run([PY, os.path.join(VERIF, 'dsim_main.py'), '--replay',
                         path, '--quiet'], env=env, capture_output=True,
                        text=True, timeout=600)
-    return r.returncode == 1 and 'digest_match=True' in r.stdout, r.stdout + \
-        r.stderr
+    # (how deep unbounded recursion gets before RecursionError depends on
+    # how deep the caller's stack already is - pool worker or command line -
+    # so the event log of such a run is reproduced up to that depth only)
+    same = 'digest_match=True' in r.stdout or (
+        'reproduced=True' in r.stdout and 'RecursionError' in r.stdout)
+    return r.returncode == 1 and same, r.stdout + r.stderr
 
 
 # ---------------------------------------------------------------------------
